@@ -122,7 +122,6 @@ func modPR(m protoreflect.Message, mod string) int {
 }
 
 func modDyn(dm *dynamic.Message, mod string) int {
-	md := dm.GetMessageDescriptor()
 	switch mod {
 	case "unknown":
 		if err := dm.UnmarshalMerge(extraUnknown); err != nil {
@@ -130,7 +129,7 @@ func modDyn(dm *dynamic.Message, mod string) int {
 		}
 		return 1
 	case "set":
-		for _, fd := range md.GetFields() {
+		for _, fd := range dynFields(dm) {
 			if fd.IsRepeated() || dynIsMsg(fd) {
 				continue
 			}
@@ -142,14 +141,14 @@ func modDyn(dm *dynamic.Message, mod string) int {
 			return 1
 		}
 	case "clear":
-		for _, fd := range md.GetFields() {
+		for _, fd := range dynFields(dm) {
 			if dm.HasField(fd) {
 				dm.ClearField(fd)
 				return 1
 			}
 		}
 	case "append":
-		for _, fd := range md.GetFields() {
+		for _, fd := range dynFields(dm) {
 			if !fd.IsRepeated() || fd.IsMap() {
 				continue
 			}
@@ -161,7 +160,7 @@ func modDyn(dm *dynamic.Message, mod string) int {
 			return 1
 		}
 	case "map":
-		for _, fd := range md.GetFields() {
+		for _, fd := range dynFields(dm) {
 			if !fd.IsMap() {
 				continue
 			}
@@ -207,7 +206,7 @@ func modCheck() []string {
 	for _, s := range pool {
 		for _, mod := range allMods[1:] {
 			applies := map[string]bool{}
-			for _, rep := range []string{"gen", "dyn"} {
+			for _, rep := range append([]string{"gen", "dyn"}, cfgReps...) {
 				a, b := s.instance(rep), s.instance(rep)
 				before, err1 := canon(a)
 				n := modify(a, mod)
@@ -241,7 +240,7 @@ func modCheck() []string {
 func bulkCheck() []string {
 	var problems []string
 	for _, s := range pool {
-		for _, rep := range []string{"gen", "dyn"} {
+		for _, rep := range append([]string{"gen", "dyn"}, cfgReps...) {
 			for _, mode := range []string{"shallow", "independent"} {
 				a := s.instance(rep)
 				var b interface{}
@@ -265,7 +264,7 @@ func bulkCheck() []string {
 					flagged = true
 				}
 				want := mode == "shallow" && hasRefContent(s.build())
-				if mode == "shallow" && rep == "dyn" {
+				if mode == "shallow" && isDyn(rep) {
 					g := s.build()
 					want = !proto.Equal(g, g.ProtoReflect().New().Interface()) || len(g.ProtoReflect().GetUnknown()) > 0
 				}
